@@ -13,6 +13,7 @@ from vlib import configrun, siblings, gen_envelope as GE, gen_json as G, gen_met
     ref_verify as RV
 from vlib.ref_canon import canon, jeq
 from vlib.runner import Unit, Violation
+from vlib import editor as _editor
 
 PROPERTY = "C08"
 LEVEL = "exploration"
@@ -42,6 +43,11 @@ def _histories(draw):
     for k, v in draw(st.lists(st.tuples(st.one_of(G.strings, keys.ghost_keys, st.sampled_from([p.upper() for p in pubs])),
                                         st.one_of(GE.JUNK_VALUES, st.just({"signature": "ab" * 64}))), max_size=3)):
         env["signatures"][k] = v
+    if draw(st.integers(0, 5)) == 0:
+        # a flood of other parties' well-formed entries: whatever is signed later is LAST in insertion order and somewhere in the
+        # middle once the file has been written (sorted) and loaded again
+        for g in keys.derived_ghosts(draw(st.integers(0, 2 ** 32)), draw(st.integers(33, 150))):
+            env["signatures"][g] = {"signature": "ab" * 64}
     if draw(st.booleans()):
         # a valid signature filed under the upper-case spelling of its key (does not count, and must stay where it is)
         s0 = seeds[0]
@@ -259,4 +265,5 @@ UNITS = [
     Unit("history", check_history, strategy=_histories, quick=400, thorough=15000,
          essential=["sign_raw", "sign_gpg", "rewrite_sloppy", "load_mutate_load", "two-signers", "shrinking-write"],
          doc="write / load / sign / re-spell histories on one file with byte, value, entry-preservation and verdict invariants"),
+    _editor.unit(),
 ]
